@@ -360,6 +360,110 @@ theorem lt_string_order (cfg : CmpCfg) (h : cfg.WF) (a b ba bb : Int) (ta tb : L
   exact ⟨fun hlt => render_order cfg.prec h.1 h.2.1 a b ba bb ta tb ha hb hya hyb (hc.1 hlt),
     fun hgt => render_order cfg.prec h.1 h.2.1 b a bb ba tb ta hb ha hyb hya (hc.2 hgt)⟩
 
+/-! ### one timestamp object through its mutating API (`+=`, `-=`, `+`, `-`, the `.utc`/`.local` setters) -/
+
+/-- the invariant of the lazily cached rendering `_str`: when present it is the rendering of the
+value the object holds *now* -/
+def TsObj.CacheOk (prec : Nat) (o : TsObj) : Prop :=
+  ∀ t, o.cache = some t → render prec o.μ o.bias none .dflt = some t
+
+theorem fresh_cacheOk (prec : Nat) (μ bias : Int) : ({ μ := μ, bias := bias } : TsObj).CacheOk prec := by
+  intro t h; simp at h
+
+/-- with the invariant, `str(ts)` is the rendering of the current value, and keeps the invariant -/
+theorem str_is_render (prec : Nat) (o : TsObj) (h : o.CacheOk prec) :
+    (o.str prec).1 = render prec o.μ o.bias none .dflt ∧ (o.str prec).2.CacheOk prec ∧
+    (o.str prec).2.μ = o.μ ∧ (o.str prec).2.bias = o.bias := by
+  unfold TsObj.str
+  cases hc : o.cache with
+  | some t => exact ⟨(h t hc).symm, h, rfl, rfl⟩
+  | none =>
+    cases hr : render prec o.μ o.bias none .dflt with
+    | none => exact ⟨rfl, h, rfl, rfl⟩
+    | some t =>
+      refine ⟨rfl, ?_, rfl, rfl⟩
+      intro t' ht'
+      simp only [Option.some.injEq] at ht'
+      rw [← ht']; exact hr
+
+/-- **every operation of the mutating API keeps the cached rendering in step with the value** -/
+theorem step_cacheOk (prec : Nat) (db : TzDb) (o : TsObj) (op : ObjOp) (h : o.CacheOk prec) :
+    (o.step prec db op).CacheOk prec := by
+  cases op with
+  | str => exact (str_is_render prec o h).2.1
+  | render p => exact h
+  | localGet => exact h
+  | inplace nz μ b =>
+    simp only [TsObj.step, TsObj.inplace]
+    split
+    · exact fresh_cacheOk prec μ b
+    · exact h
+  | arith nz μ b =>
+    simp only [TsObj.step, TsObj.arith]
+    split
+    · exact fresh_cacheOk prec μ b
+    · exact h
+  | copy => exact h
+  | assign t =>
+    simp only [TsObj.step, TsObj.assign]
+    cases parse db t with
+    | ok v => exact fresh_cacheOk prec v 0
+    | error e => exact h
+  | cmp μ b => exact (str_is_render prec o h).2.1
+
+/-- ... hence after **any sequence** of operations on a freshly made timestamp -/
+theorem steps_cacheOk (prec : Nat) (db : TzDb) (ops : List ObjOp) (o : TsObj) (h : o.CacheOk prec) :
+    (ops.foldl (TsObj.step prec db) o).CacheOk prec := by
+  induction ops generalizing o with
+  | nil => exact h
+  | cons op ops ih => exact ih _ (step_cacheOk prec db o op h)
+
+/-- **Object-level round trip**: whatever was done to a timestamp object before, the text `str(ts)`
+gives parses back to the instant the object holds now (rounded to the default precision). -/
+theorem obj_str_roundtrip (prec : Nat) (hp : prec ≤ 6) (db db' : TzDb) (μ bias : Int) (ops : List ObjOp)
+    (t : List Char) :
+    let o := ops.foldl (TsObj.step prec db) { μ := μ, bias := bias }
+    (o.str prec).1 = some t → parse db' t = .ok (renderedInstant prec o.μ o.bias) := by
+  intro o ht
+  have hok := steps_cacheOk prec db ops _ (fresh_cacheOk prec μ bias)
+  rw [(str_is_render prec o hok).1] at ht
+  exact render_parse_utc prec hp o.μ o.bias db' t ht
+
+/-- **Object-level comparison**: two timestamp objects, each after any sequence of operations,
+whose `str()` are equal compare `==`; if one compares `<` the other its `str()` is the smaller
+string (four-digit years). -/
+theorem obj_compare_consistent (cfg : CmpCfg) (h : cfg.WF) (db : TzDb) (μa ba μb bb : Int)
+    (opsA opsB : List ObjOp) (ta tb : List Char) :
+    let a := opsA.foldl (TsObj.step cfg.prec db) { μ := μa, bias := ba }
+    let b := opsB.foldl (TsObj.step cfg.prec db) { μ := μb, bias := bb }
+    (a.str cfg.prec).1 = some ta → (b.str cfg.prec).1 = some tb →
+    (ta = tb → tsEq cfg a.μ b.μ = true ∧ tsLt cfg a.μ b.μ = false ∧ tsGt cfg a.μ b.μ = false) ∧
+    (1000 ≤ (civilOfSecs (roundTo cfg.prec a.μ a.bias / 1000000)).y →
+     1000 ≤ (civilOfSecs (roundTo cfg.prec b.μ b.bias / 1000000)).y →
+     (tsLt cfg a.μ b.μ = true → ta < tb) ∧ (tsGt cfg a.μ b.μ = true → tb < ta)) := by
+  intro a b hta htb
+  have hoa := steps_cacheOk cfg.prec db opsA _ (fresh_cacheOk cfg.prec μa ba)
+  have hob := steps_cacheOk cfg.prec db opsB _ (fresh_cacheOk cfg.prec μb bb)
+  rw [(str_is_render cfg.prec a hoa).1] at hta
+  rw [(str_is_render cfg.prec b hob).1] at htb
+  refine ⟨fun heq => ?_, fun hya hyb => lt_string_order cfg h a.μ b.μ a.bias b.bias ta tb hta htb hya hyb⟩
+  subst heq
+  have := equal_renderings_compare_equal cfg h a.μ b.μ a.bias b.bias ta hta htb
+  exact ⟨this.1, this.2.1, this.2.2.1⟩
+
+/-- non-vacuity: render, advance in place by 61 s, render again -/
+example : (([ObjOp.str, .inplace true 1399326202000000 0].foldl (TsObj.step 3 ⟨[], []⟩)
+      ({ μ := 1399326141000000, bias := 0 } : TsObj)).str 3).1
+    = some "2014-05-05 21:43:22.000".toList := by decide +kernel
+
+/-- a sample of why the invalidation matters (a *seeded change*, not the code): an in-place add
+that keeps the cache breaks the invariant on the first sequence render / `+=` / render -/
+example : let keep (o : TsObj) (μ' : Int) : TsObj := { o with μ := μ' }
+    let o := keep (({ μ := 1399326141000000, bias := 0 } : TsObj).str 3).2 1399326141001000;
+    (o.str 3).1 = some "2014-05-05 21:42:21.000".toList ∧
+    render 3 o.μ o.bias none .dflt = some "2014-05-05 21:42:21.001".toList := by
+  constructor <;> decide +kernel
+
 /-! ### durations -/
 
 /-- **A duration formatted to text parses back to exactly the same duration**, for every
